@@ -555,7 +555,19 @@ func vScenarioC12(rc *runCtx) {
 				np = []string{"maybe", "", "TRUE", "1"}[tp.Draw("c12.comp", 4)]
 			case "ACT", "CFG", "NAME", "HASH", "MD5", "EXIT", "fail", "FAIL":
 				np = vHostileEncoded(tp, payload)
-				if (typ == "CFG" || typ == "ACT" || typ == "NAME") && tp.Bool("c12.known", 400) {
+				if typ == "NAME" && tp.Bool("c12.namepath", 400) {
+				// the path list of a file record is a structure of its own: empty, wrong types, empty elements
+				if raw, err := vDecode(payload); err == nil {
+					var m map[string]any
+					if json.Unmarshal(raw, &m) == nil && m != nil && m["path_name"] != nil {
+						shapes := []string{`[]`, `[""]`, `null`, `"name"`, `[1]`, `[[]]`, `["a",""]`, `[null]`, `{}`, `["a",7]`}
+						m["path_name"] = json.RawMessage(shapes[tp.Pick("c12.namepathshape", 5, 2, 1, 1, 1, 1, 1, 1, 1, 1)])
+						if js, err := json.Marshal(m); err == nil {
+							np = vEncode(js)
+						}
+					}
+				}
+			} else if (typ == "CFG" || typ == "ACT" || typ == "NAME") && tp.Bool("c12.known", 400) {
 					// a well-formed record in which only known fields carry boundary values
 					if raw, err := vDecode(payload); err == nil {
 						var m map[string]any
